@@ -558,6 +558,67 @@ def check_dev_server_clients(acc):
     acc.outcome('dev-server-clients')
 
 
+def check_forked_workers(acc):
+    """A pre-fork deployment: the application is built once, then worker processes are forked from it; a cookie issued
+    by one worker is presented intact by every other worker - with a configured secret and with the one the middleware
+    makes up for itself.  Every (issuing worker, reading worker) pair over three workers."""
+    import itertools
+    import pickle
+    from clastic import Application
+    from clastic.middleware.cookie import SignedCookieMiddleware
+    from werkzeug.wrappers import Response
+
+    def ep(cookie, request):
+        before = dict(cookie)
+        if request.args.get('v'):
+            cookie['who'] = request.args['v']
+        return Response(json.dumps(before, sort_keys=True), status=201)
+
+    def in_worker(app, query, cookie_hdr):
+        # one request served by a freshly forked worker; the parent never serves a request itself
+        r, w = os.pipe()
+        pid = os.fork()
+        if pid == 0:
+            try:
+                os.close(r)
+                res = wsgi.call(app, '/', 'GET', query=query, headers={'Cookie': cookie_hdr} if cookie_hdr else None)
+                out = (res.code, res.body, res.header_all('Set-Cookie') if res.headers else [], repr(res.raised) if res.raised else None)
+                os.write(w, pickle.dumps(out))
+            finally:
+                os._exit(0)
+        os.close(w)
+        chunks = []
+        while True:
+            c = os.read(r, 65536)
+            if not c:
+                break
+            chunks.append(c)
+        os.close(r)
+        os.waitpid(pid, 0)
+        return pickle.loads(b''.join(chunks))
+    for secret, expiry in itertools.product((KEY, None), (0, EXPIRY)):
+        app = Application([('/', ep)], middlewares=[SignedCookieMiddleware(secret_key=secret, expiry=expiry)])
+        for issuer, reader in itertools.product(range(3), repeat=2):
+            acc.transitions += 2
+            acc.validated += 1
+            case = {'forked_workers': True, 'configured_secret': secret is not None, 'expiry': expiry}
+            code, body, set_cookies, raised = in_worker(app, 'v=w%d' % issuer, None)
+            jar = '; '.join(sc.split(';', 1)[0] for sc in set_cookies)
+            if code != 201 or not jar:
+                acc.violation('C16:forked-workers:issue', 'worker %d answered %s %s, cookies %r' % (issuer, code, raised, set_cookies), case)
+                return
+            code, body, _, raised = in_worker(app, '', jar)
+            got = json.loads(body.decode('utf-8')) if code == 201 else None
+            if got is not None:
+                got.pop('_expires', None)
+            if got != {'who': 'w%d' % issuer}:
+                acc.violation('C16:forked-workers:presented', 'a cookie issued by one worker process and sent to another (application built once, '
+                              'workers forked, %s secret): presented %r (status %s %s), stored {"who": "w%d"}'
+                              % ('configured' if secret else 'self-made', got, code, raised, issuer), case)
+                return
+    acc.outcome('forked-workers')
+
+
 def check_sibling_cookie_apps(acc):
     """Two applications, each with a SignedCookieMiddleware of its own (own secret, own expiry), embedded side by side
     in one parent - in both orders, with the same and with different cookie names: each keeps verifying with its own
@@ -627,6 +688,8 @@ def shard(tier, i, n, seed):
         check_sibling_cookie_apps(acc)
     if i == 6 % n:
         check_dev_server_clients(acc)
+    if i == 7 % n:
+        check_forked_workers(acc)
     return acc
 
 
@@ -651,6 +714,10 @@ def replay(case):
 
 def _replay(case):
     common.setup_repo()
+    if case.get('forked_workers'):
+        acc = common.Acc()
+        check_forked_workers(acc)
+        return (False, acc.violations[0]['desc']) if acc.violations else (True, 'ok')
     if case.get('dev_server_clients'):
         acc = common.Acc()
         check_dev_server_clients(acc)
